@@ -960,3 +960,58 @@ mut("c11-forwarder-no-done", ["C11"], [(MG, '''	go func() {
 
 		for {''', '''	go func() {
 		for {''')], ["C11.W1"])
+
+# ---- C15 ----
+PB = "pushtx/broadcaster.go"
+mut("c15-bare-confirm-send", ["C15"], [(PB, '''	select {
+	case b.confChan <- txHash:
+	case <-b.quit:
+	}
+}''', '''	b.confChan <- txHash
+}''')], ["C15.B1"])
+mut("c15-insert-before-error-check", ["C15"], [(PB, '''			err := b.cfg.Broadcast(req.tx)
+			if err != nil {''', '''			err := b.cfg.Broadcast(req.tx)
+			transactions[req.tx.TxHash()] = req.tx
+			if err != nil {''')], ["C15.G1"])
+mut("c15-any-error-accepted", ["C15"], [(PB, '''				if !IsBroadcastError(err, Mempool) {
+					log.Errorf("Broadcast attempt "+
+						"failed: %v", err)
+					req.errChan <- err
+					continue
+				}''', '''				if !IsBroadcastError(err, Mempool) {
+					log.Errorf("Broadcast attempt "+
+						"failed: %v", err)
+				}''')], ["C15.G1"])
+mut("c15-confirmed-treated-as-mempool", ["C15"], [(PB, "				if !IsBroadcastError(err, Mempool) {", "				if !IsBroadcastError(err, Confirmed) {")], ["C15.G1"])
+mut("c15-no-dependency-sort", ["C15"], [(PB, '''	sortedTxs := wtxmgr.DependencySort(txs)
+	for _, tx := range sortedTxs {''', '''	_ = wtxmgr.DependencySort
+	for _, tx := range txs {''')], ["C15.V1"])
+mut("c15-release-before-rebroadcast", ["C15"], [(PB, '''			b.rebroadcast(txs, b.confChan)
+			rebroadcastSem <- struct{}{}''', '''			rebroadcastSem <- struct{}{}
+			b.rebroadcast(txs, b.confChan)''')], ["C15.P1"])
+mut("c15-spawn-without-token", ["C15"], [(PB, '''			log.Tracef("Existing rebroadcast still in " +
+				"progress")
+			return
+		}
+''', '''			log.Tracef("Existing rebroadcast still in " +
+				"progress")
+		}
+''')], ["C15.P1"])
+mut("c15-share-pending-map", ["C15"], [(PB, '''			b.rebroadcast(txs, b.confChan)''', '''			_ = txs
+			b.rebroadcast(transactions, b.confChan)''')], ["C15.P1"])
+mut("c15-confirmed-not-reported", ["C15"], [(PB, '''			select {
+			case confChan <- tx.TxHash():
+			case <-b.quit:
+				return
+			}
+			continue
+''', '''			continue
+''')], ["C15.V1"])
+mut("c15-threshold-gt", ["C15"], [("query.go", "if numInvalid/numPeersResponded >= qo.invalidTxThreshold {", "if numInvalid/numPeersResponded > qo.invalidTxThreshold {")], ["C15.T1"])
+mut("c15-mempool-fragment-invalid", ["C15"], [("pushtx/error.go", '''		strings.Contains(msg.Reason, "txn-already-in-mempool"):
+		code = Mempool''', '''		strings.Contains(msg.Reason, "txn-already-in-mempool"):
+		code = Invalid''')], ["C15.T1"])
+mut("c15-no-reply-on-accept", ["C15"], [(PB, '''			transactions[req.tx.TxHash()] = req.tx
+			req.errChan <- nil
+''', '''			transactions[req.tx.TxHash()] = req.tx
+''')], ["C15.G1"])
